@@ -19,7 +19,7 @@ import numpy as np
 
 from .core import exc_sig
 from . import seams, typegen, model as M, objsim
-from .objsim import ObjSim, ObjWorld, Step, GenSource, Skip, Obj, read_handle, typereg
+from .objsim import pick_buf, ObjSim, ObjWorld, Step, GenSource, Skip, Obj, read_handle, typereg
 from .layout import DecodeError, c_indices
 
 xo = seams.xo
@@ -405,7 +405,7 @@ class HGenSource(GenSource):
         if r < 0.25:
             place = None
         elif r < 0.55:
-            place = {"buf": w.bufs.index(o.buf) if o.buf in w.bufs[: len(w.spec["buffers"])] else 0, "how": "default"}
+            place = {"buf": w.bufs.index(o.buf), "how": "default"}
         else:
             place = self.place(w)
             if place == "default_ctx" or (isinstance(place, dict) and place.get("how") in ("offset", "aligned", "packed")):
@@ -425,7 +425,7 @@ class HGenSource(GenSource):
                 part = rng.choice(nested)
         r = rng.random()
         if r < 0.6:
-            place = {"buf": rng.randrange(len(w.spec["buffers"])), "how": "default"}
+            place = {"buf": pick_buf(w, rng), "how": "default"}
         else:
             place = {"ctx": rng.randrange(len(w.ctxs))}
         return {"op": "h_move", "obj": o.k, "part": part, "place": place}
@@ -436,8 +436,9 @@ class HGenSource(GenSource):
             return None
         o = self.rng.choice(live)
         r = self.rng.random()
-        place = None if r < 0.4 else {"buf": w.bufs.index(o.buf) if o.buf in w.bufs[: len(w.spec["buffers"])] else 0, "how": "default"} if r < 0.7 else {"ctx": 0}
-        return {"op": "h_dict", "obj": o.k, "place": place, "id": self.new_id()}
+        place = None if r < 0.4 else {"buf": w.bufs.index(o.buf), "how": "default"} if r < 0.7 else {"ctx": 0}
+        also = [x.k for x in self.rng.sample(live, min(len(live), self.rng.choice([0, 0, 1, 2])))]
+        return {"op": "h_dict", "obj": o.k, "place": place, "also": also, "id": self.new_id()}
 
     def h_restart(self, w):
         live = self.hlive(w)
@@ -625,6 +626,7 @@ class HStep(Step):
         self.res.features.add(f"h_set:{k}:{form}:{'idx' if 'idx' in op else op.get('how', '-')}:{'xref' if '*' in path else 'nested' if len(path) > 1 else 'top'}:{'renamed' if name != path[-1] else 'plain'}")
         expect_memerr = False
         pinned = []
+        replace_whole = False
         try:
             if k in ("sc", "str"):
                 mat = M.Materialiser(schema, w.classes, w.objs, None)
@@ -668,10 +670,17 @@ class HStep(Step):
                     src = self.get_obj(v["obj"])
                     if src.t != t or src is o:
                         raise Skip()
-                    if not self._same_layout(o, path, src) or not objsim._shape_compatible(schema, t, node, src.node):
-                        raise Skip()  # same extents are not enough: empty arrays of different shapes have equal extents
+                    same_layout = self._same_layout(o, path, src) and objsim._shape_compatible(schema, t, node, src.node)
+                    same_size = self._part_size(o, path) == self._extent(src) and self._extent(src) > 0
+                    if not same_layout and not same_size:
+                        raise Skip()  # neither an in-place fit nor an equal-size replacement: may legitimately be refused
                     val = src.dressed if (getattr(src, "dressed", None) is not None and not raw_holder) else src.handle()
                     vnode = M.copy_node(schema, t, src.node, False)
+                    if not same_layout:
+                        # equal total size, other split of the dynamic parts: the library byte-copies the
+                        # value, which replaces the nested object wholesale (shapes, capacities, offsets)
+                        replace_whole = True
+                        self.res.probe("nested_assignment_same_size_other_split")
                     if src.buf is not o.buf:
                         self.res.fault("foreign_operand")
                 else:
@@ -681,7 +690,10 @@ class HStep(Step):
                         raise Skip()
                 action = lambda: setattr(holder, name, val)  # noqa: E731
                 new = node
-                post = lambda: M.assign_into(schema, t, node, vnode)  # noqa: E731
+                if replace_whole:
+                    post = lambda: M.store_at(parent, key, vnode)  # noqa: E731
+                else:
+                    post = lambda: M.assign_into(schema, t, node, vnode)  # noqa: E731
                 if form == "obj" and any(schema[f[1]]["k"] == "struct" for f in schema[t]["fields"]):
                     self.res.probe("nested_assignment_of_object_with_nested_parts")
             elif k == "ref":
@@ -724,7 +736,20 @@ class HStep(Step):
             M.store_at(parent, key, new)
         else:
             post()
+        if replace_whole and self.pre_layout is not None:
+            self.pre_layout.pop(o.k, None)  # its nested layout legitimately changed
         self.res.probe("h_set_" + k + "_" + form)
+
+    def _part_size(self, o, path):
+        w = self.w
+        try:
+            lay = []
+            w.dec.decode(o.t, seams.raw_bytes(o.buf), o.off, o.bufid, lay, None, (), True)
+        except DecodeError:
+            return -1
+        key = tuple(tuple(el) if isinstance(el, list) else el for el in path)
+        hit = [x for x in lay if x[0] == key]
+        return hit[0][2] - hit[0][1] if hit else -1
 
     def _same_layout(self, o, path, src):
         """Decoder layout of the addressed part equals the layout of `src` (sizes of all parts)."""
@@ -855,6 +880,16 @@ class HStep(Step):
             self.outcome = "raised:" + exc_sig(e)
             self.viol("C19", "to_dict_raised", ["h_dict", exc_sig(e)], f"{type(e).__name__}: {e}; field kinds {self._kinds(o.t)}")
             return
+        # other dictionaries taken before this one is consumed (dicts = [e.to_dict() for e in elems])
+        for k2 in op.get("also", []):
+            try:
+                x = self.hobj(k2)
+                x.dressed.to_dict()
+                self.res.probe("to_dict_interleaved")
+            except Skip:
+                pass
+            except Exception:
+                pass  # reported when that object is the subject of its own h_dict step
         # default elision: fields equal to their declared default are absent
         ty = schema[o.t]
         for f in ty["fields"]:
